@@ -372,3 +372,61 @@ def test_fixed_F41_F42_numpy_weights_and_augmented_mixture():
     d = DictDistribution({'a': .5, 'b': .5})
     d |= DictDistribution({'a': .5})
     assert dict(d) == {'a': 1.0, 'b': .5}
+
+
+def test_fixed_F36_bayes_filter_ignores_successors_listed_with_probability_zero():
+    from msdm.core.pomdp import TabularPOMDP
+
+    class P(Dict2MDP, TabularPOMDP):
+        def observation_dist(self, a, ns):
+            return DictDistribution({'x': 0.75, 'y': 0.25}) if ns == 0 else DictDistribution({'x': 0.25, 'y': 0.75})     # KeyError-free only on 0, 1
+    p = P({0: {'a': {0: .5, 1: .5, 'ghost': 0.0}}, 1: {'a': {1: 1.0}}}, {(0, 'a'): -1.0}, {0: 1.0}, gamma=0.9)
+
+    class Q(P):
+        def observation_dist(self, a, ns):
+            if ns == 'ghost':
+                raise KeyError(ns)
+            return P.observation_dist(self, a, ns)
+    q = Q({0: {'a': {0: .5, 1: .5, 'ghost': 0.0}}, 1: {'a': {1: 1.0}}}, {(0, 'a'): -1.0}, {0: 1.0}, gamma=0.9)
+    post = q.state_estimator(DictDistribution({0: 1.0}), 'a', 'x')
+    assert dict(post) == pytest.approx({0: .75, 1: .25})
+    assert dict(q.predictive_observation_dist(DictDistribution({0: 1.0}), 'a')) == pytest.approx({'x': .5, 'y': .5})
+
+
+def test_fixed_F37_alpha_vector_policy_with_uniform_and_point_beliefs():
+    from msdm.algorithms.pointbasedvalueiteration import PointBasedValueIteration
+    from msdm.core.distributions import DeterministicDistribution
+    p = _two_state_pomdp({(0, 'a'): 1.0, (0, 'b'): 0.0, (1, 'a'): -1.0, (1, 'b'): 0.0})
+    pol = PointBasedValueIteration(min_belief_expansions=2, max_belief_expansions=4).plan_on(p).policy
+    assert pol.value(DictDistribution.uniform([0, 1])) == pytest.approx(pol.value(DictDistribution({0: .5, 1: .5})))
+    assert pol.value(DeterministicDistribution(0)) == pytest.approx(pol.value(DictDistribution({0: 1.0})))
+
+
+def test_fixed_F39_lp_seam_leaves_variables_free():
+    import msdm.algorithms.fscboundedpolicyiteration as bpi
+    res = bpi.Solvers.scipy_lp(np.array([0.0, -1.0]), np.array([[0.0, 1.0], [-1.0, 0.0]]), np.array([-1.0, 0.0]),
+                               np.array([[1.0, 0.0]]), np.array([1.0]))
+    assert [float(x) for x in res.solution] == pytest.approx([1.0, -1.0])
+
+
+def test_fixed_F40_rmax_learner_reused_on_a_bigger_mdp():
+    from msdm.algorithms.rmax import RMAX
+
+    def chain(n):
+        T = {s: {'go': {min(s + 1, n - 1): 1.0}, 'stay': {s: 1.0}} for s in range(n)}
+        R = {(s, a): (0.0 if s == n - 1 else -1.0) for s in range(n) for a in ('go', 'stay')}
+        return Dict2MDP(T, R, {0: 1.0}, absorbing=[n - 1], gamma=0.9)
+    learner = RMAX(episodes=3, rmax=0.0, num_transition_samples=1, seed=0)
+    learner.train_on(chain(3))
+    again = learner.train_on(chain(4)).q_values
+    fresh = RMAX(episodes=3, rmax=0.0, num_transition_samples=1, seed=0).train_on(chain(4)).q_values
+    assert {s: dict(v) for s, v in again.items()} == {s: dict(v) for s, v in fresh.items()}
+
+
+def test_fixed_F44_undiscounted_multichain_pi_policy_rows():
+    from msdm.algorithms.multichainpolicyiteration import MultichainPolicyIteration
+    T = {0: {'a': {0: 1.0}, 'b': {2: .9, 3: .1}}, 1: {'a': {0: 1.0}, 'b': {2: 1.0}}, 2: {'a': {0: .1, 1: .9}, 'b': {0: .9, 1: .1}},
+         3: {'a': {3: 1.0}, 'b': {3: 1.0}}}
+    R = {(0, 'a'): -2.0, (0, 'b'): -1.0, (1, 'a'): -1.0, (1, 'b'): 0.0, (2, 'a'): 0.0, (2, 'b'): -3.0}
+    res = MultichainPolicyIteration().plan_on(Dict2MDP(T, R, {0: 1.0}, absorbing=[3], gamma=1.0))
+    assert res.converged and not np.isnan(np.array(res.policy)).any()
